@@ -11,6 +11,7 @@ package checks
 
 import (
 	"fmt"
+	"os"
 	"sort"
 	"strings"
 	"time"
@@ -147,7 +148,7 @@ func C08(tier string) int {
 		}
 		el := &gdbi.Vertex{ID: v.Name, Label: "L", Data: data, Loaded: true}
 		if err := gi.AddVertex([]*gdbi.Vertex{el}); err != nil {
-			fmt.Println("C08: cannot add fixture vertex", v.Name, err)
+			fmt.Fprintln(os.Stderr, "C08: cannot add fixture vertex", v.Name, err)
 			return 2
 		}
 		// the traveler carries the value as it comes back from the store
